@@ -16,6 +16,7 @@ use serde_json::{json, Value};
 use std::collections::VecDeque;
 use std::io::Read;
 use std::pin::Pin;
+use std::sync::atomic::{AtomicUsize, Ordering};
 use std::sync::{Arc, Mutex};
 use std::task::{Context, Poll};
 use tonic::codec::{BufferSettings, Codec, CompressionEncoding, DecodeBuf, Decoder, EncodeBody, EncodeBuf, Encoder};
@@ -139,8 +140,37 @@ impl StSpec {
         }
     }
 }
+const POISON: &[u8] = b"POLLED-AFTER-END";
+/// what a STRICT (non-fused) source does when it is polled after it returned None: it counts the
+/// poll and then either invents an item or panics (both are legal for a Stream)
+#[derive(Clone)]
+struct Strict {
+    ended: bool,
+    after_end: Arc<AtomicUsize>,
+    panic_mode: bool,
+}
+impl Strict {
+    fn new(panic_mode: bool) -> (Strict, Arc<AtomicUsize>) {
+        let c = Arc::new(AtomicUsize::new(0));
+        (Strict { ended: false, after_end: c.clone(), panic_mode }, c)
+    }
+    /// the script is exhausted: None the first time, a violation afterwards
+    fn at_end(&mut self) -> Option<Vec<u8>> {
+        if self.ended {
+            self.after_end.fetch_add(1, Ordering::SeqCst);
+            if self.panic_mode {
+                panic!("source stream polled after it returned None");
+            }
+            Some(POISON.to_vec())
+        } else {
+            self.ended = true;
+            None
+        }
+    }
+}
 struct Script {
     evs: VecDeque<SEv>,
+    strict: Strict,
 }
 impl tokio_stream::Stream for Script {
     type Item = Result<Vec<u8>, Status>;
@@ -152,7 +182,21 @@ impl tokio_stream::Stream for Script {
             }
             Some(SEv::Ok(m)) => Poll::Ready(Some(Ok(m))),
             Some(SEv::Err(s)) => Poll::Ready(Some(Err(s.status()))),
-            None => Poll::Ready(None),
+            None => Poll::Ready(self.strict.at_end().map(Ok)),
+        }
+    }
+}
+/// the strict source of client-streaming requests (items are plain messages there)
+struct StrictIter {
+    items: VecDeque<Vec<u8>>,
+    strict: Strict,
+}
+impl tokio_stream::Stream for StrictIter {
+    type Item = Vec<u8>;
+    fn poll_next(mut self: Pin<&mut Self>, _: &mut Context<'_>) -> Poll<Option<Vec<u8>>> {
+        match self.items.pop_front() {
+            Some(m) => Poll::Ready(Some(m)),
+            None => Poll::Ready(self.strict.at_end()),
         }
     }
 }
@@ -357,6 +401,8 @@ fn obs_tr(o: &Obs) -> Tr {
 /// what one drain saw: is_end_stream() before the first poll, every poll result with the
 /// is_end_stream() answer right after it, and whether None was reached
 struct Drained {
+    /// polls of the source stream after it had returned None (filled in by the caller)
+    after_end: usize,
     init_es: bool,
     obs: Vec<Obs>,
     es: Vec<bool>,
@@ -364,7 +410,7 @@ struct Drained {
 }
 impl Drained {
     fn tr(&self) -> Tr {
-        let mut v = vec![Tr::bool(self.init_es)];
+        let mut v = vec![Tr::n(self.after_end as u64), Tr::bool(self.init_es)];
         for (o, e) in self.obs.iter().zip(self.es.iter()) {
             v.push(Tr::L(vec![obs_tr(o), Tr::bool(*e)]));
         }
@@ -406,7 +452,7 @@ where
             Err(p) => {
                 out.push(Obs::Panic(p));
                 es.push(false);
-                return Drained { init_es, obs: out, es, ended };
+                return Drained { after_end: 0, init_es, obs: out, es, ended };
             }
             Ok(Poll::Pending) => out.push(Obs::Pending),
             Ok(Poll::Ready(None)) => {
@@ -424,7 +470,14 @@ where
         }
         es.push(body.is_end_stream());
     }
-    Drained { init_es, obs: out, es, ended }
+    Drained { after_end: 0, init_es, obs: out, es, ended }
+}
+/// the source contract: a stream that has returned None is not polled again
+fn judge_source(d: &Drained) -> Option<String> {
+    if d.after_end != 0 {
+        return Some(format!("the source stream was polled {} time(s) after it had returned None", d.after_end));
+    }
+    None
 }
 /// M3: a consumer (hyper) that stops polling as soon as is_end_stream() answers true must have
 /// received every DATA frame and the trailers / the error
@@ -640,10 +693,11 @@ impl Pend {
 // ------------------------------------------------------------------ kind: body (EncodeBody directly)
 fn case_body(p: &mut Pend, out: &mut Out, kind: &str, server: bool, cfg: &Cfg, src: &[SEv]) {
     let budget = src.len() + 3;
-    let script = Script { evs: src.iter().cloned().collect() };
+    let (strict, polled_after_end) = Strict::new(p.cases.len() % 2 == 1);
+    let script = Script { evs: src.iter().cloned().collect(), strict };
     let enc = RawEnc { bs: cfg.bs };
     let comp = cfg.comp.map(|e| e.tonic());
-    let dr = if server {
+    let mut dr = if server {
         if cfg.override_disable {
             // SingleMessageCompressionOverride is not nameable from outside the crate: take the
             // value Response::disable_compression stores and let inference name the type
@@ -657,6 +711,7 @@ fn case_body(p: &mut Pend, out: &mut Out, kind: &str, server: bool, cfg: &Cfg, s
     } else {
         drain(EncodeBody::new_client(enc, script, comp, cfg.max), budget)
     };
+    dr.after_end = polled_after_end.load(Ordering::SeqCst);
     let (obs, ended) = (dr.obs.clone(), dr.ended);
     let want = expect(cfg, src);
     let wire = data_of(&obs);
@@ -669,7 +724,7 @@ fn case_body(p: &mut Pend, out: &mut Out, kind: &str, server: bool, cfg: &Cfg, s
         coq_list(src, sev_coq),
         EXTRA_POLLS
     );
-    let oracle = judge_frames(server, &obs, ended, &want).or_else(|| judge_end_stream(server, &dr));
+    let oracle = judge_frames(server, &obs, ended, &want).or_else(|| judge_end_stream(server, &dr)).or_else(|| judge_source(&dr));
     let n_ok = src.iter().filter(|e| matches!(e, SEv::Ok(_))).count();
     let n_pend = src.iter().filter(|e| matches!(e, SEv::Pending)).count();
     out.hist("body.role", if server { "server" } else { "client" });
@@ -825,6 +880,7 @@ fn case_request(p: &mut Pend, out: &mut Out, kind: &str, rc: &ReqCase) {
     let rcc = rc.clone();
     let origin2 = origin.clone();
     let path2 = path.clone();
+    let (strict, polled_after_end) = Strict::new(p.cases.len() % 2 == 1);
     let res = catch(std::panic::AssertUnwindSafe(move || {
         let mut g = tonic::client::Grpc::with_origin(cap, origin2);
         if let Some(e) = rcc.send {
@@ -849,7 +905,7 @@ fn case_request(p: &mut Pend, out: &mut Out, kind: &str, rc: &ReqCase) {
                         let _ = g.unary(r, path2, codec).await;
                     }
                     1 => {
-                        let mut r = tonic::Request::new(tokio_stream::iter(rcc.msgs.clone()));
+                        let mut r = tonic::Request::new(StrictIter { items: rcc.msgs.iter().cloned().collect(), strict });
                         *r.metadata_mut() = md;
                         let _ = g.client_streaming(r, path2, codec).await;
                     }
@@ -859,7 +915,7 @@ fn case_request(p: &mut Pend, out: &mut Out, kind: &str, rc: &ReqCase) {
                         let _ = g.server_streaming(r, path2, codec).await.map(|_| ());
                     }
                     _ => {
-                        let mut r = tonic::Request::new(tokio_stream::iter(rcc.msgs.clone()));
+                        let mut r = tonic::Request::new(StrictIter { items: rcc.msgs.iter().cloned().collect(), strict });
                         *r.metadata_mut() = md;
                         let _ = g.streaming(r, path2, codec).await.map(|_| ());
                     }
@@ -906,8 +962,10 @@ fn case_request(p: &mut Pend, out: &mut Out, kind: &str, rc: &ReqCase) {
         ),
         (Ok(Err(())), _) => (Tr::L(vec![Tr::n(98u8)]), Some("the call hangs".into()), None),
         (Ok(Ok(())), None) => (Tr::L(vec![Tr::n(97u8)]), Some("no request was sent".into()), None),
-        (Ok(Ok(())), Some((parts, d))) => {
-            let mut why = judge_request_head(&parts, &origin, &target, rc.send);
+        (Ok(Ok(())), Some((parts, mut d))) => {
+            // (the one-message shapes wrap the message in tokio_stream::once inside tonic: not observable)
+            d.after_end = polled_after_end.load(Ordering::SeqCst);
+            let mut why = judge_request_head(&parts, &origin, &target, rc.send).or_else(|| judge_source(&d));
             if why.is_none() {
                 why = judge_frames(false, &d.obs, d.ended, &want);
             }
@@ -1024,11 +1082,11 @@ fn unary_answer(h: &Result<(Vec<(String, Vec<u8>)>, Vec<u8>, bool), StSpec>) -> 
         }
     }
 }
-fn stream_answer(h: &Result<(Vec<(String, Vec<u8>)>, Vec<SEv>, bool), StSpec>) -> Result<tonic::Response<Script>, Status> {
+fn stream_answer(h: &Result<(Vec<(String, Vec<u8>)>, Vec<SEv>, bool), StSpec>, strict: &Strict) -> Result<tonic::Response<Script>, Status> {
     match h {
         Err(s) => Err(s.status()),
         Ok((md, evs, disable)) => {
-            let mut r = tonic::Response::new(Script { evs: evs.iter().cloned().collect() });
+            let mut r = tonic::Response::new(Script { evs: evs.iter().cloned().collect(), strict: strict.clone() });
             *r.metadata_mut() = md_of(md);
             if *disable {
                 r.disable_compression();
@@ -1062,7 +1120,7 @@ impl tower_service::Service<tonic::Request<tonic::Streaming<Vec<u8>>>> for Unary
     }
 }
 #[derive(Clone)]
-struct StreamSvc(Result<(Vec<(String, Vec<u8>)>, Vec<SEv>, bool), StSpec>);
+struct StreamSvc(Result<(Vec<(String, Vec<u8>)>, Vec<SEv>, bool), StSpec>, Strict);
 impl tower_service::Service<tonic::Request<Vec<u8>>> for StreamSvc {
     type Response = tonic::Response<Script>;
     type Error = Status;
@@ -1071,7 +1129,7 @@ impl tower_service::Service<tonic::Request<Vec<u8>>> for StreamSvc {
         Poll::Ready(Ok(()))
     }
     fn call(&mut self, _: tonic::Request<Vec<u8>>) -> Self::Future {
-        std::future::ready(stream_answer(&self.0))
+        std::future::ready(stream_answer(&self.0, &self.1))
     }
 }
 impl tower_service::Service<tonic::Request<tonic::Streaming<Vec<u8>>>> for StreamSvc {
@@ -1082,7 +1140,7 @@ impl tower_service::Service<tonic::Request<tonic::Streaming<Vec<u8>>>> for Strea
         Poll::Ready(Ok(()))
     }
     fn call(&mut self, _: tonic::Request<tonic::Streaming<Vec<u8>>>) -> Self::Future {
-        std::future::ready(stream_answer(&self.0))
+        std::future::ready(stream_answer(&self.0, &self.1))
     }
 }
 fn raw_frame(flag: u8, p: &[u8]) -> Vec<u8> {
@@ -1122,6 +1180,7 @@ fn case_response(p: &mut Pend, out: &mut Out, kind: &str, rc: &RespCase) {
     }
     let req_headers = req.headers().clone();
     let rcc = rc.clone();
+    let (strict, polled_after_end) = Strict::new(p.cases.len() % 2 == 1);
     let res = catch(std::panic::AssertUnwindSafe(move || {
         let mut g = tonic::server::Grpc::new(RawCodec { bs: rcc.bs });
         for e in &rcc.send {
@@ -1138,8 +1197,8 @@ fn case_response(p: &mut Pend, out: &mut Out, kind: &str, rc: &RespCase) {
                 match (rcc.handler, rcc.req_stream) {
                     (Handler::Unary(h), false) => g.unary(UnarySvc(h), req).await,
                     (Handler::Unary(h), true) => g.client_streaming(UnarySvc(h), req).await,
-                    (Handler::Stream(h), false) => g.server_streaming(StreamSvc(h), req).await,
-                    (Handler::Stream(h), true) => g.streaming(StreamSvc(h), req).await,
+                    (Handler::Stream(h), false) => g.server_streaming(StreamSvc(h, strict), req).await,
+                    (Handler::Stream(h), true) => g.streaming(StreamSvc(h, strict), req).await,
                 }
             },
             10_000,
@@ -1206,7 +1265,8 @@ fn case_response(p: &mut Pend, out: &mut Out, kind: &str, rc: &RespCase) {
     );
     let (obs, oracle, wire) = match (fail, parts_opt, dr_opt) {
         (Some((t, w)), _, _) => (t, Some(w), None),
-        (None, Some(parts), Some(d)) => {
+        (None, Some(parts), Some(mut d)) => {
+            d.after_end = polled_after_end.load(Ordering::SeqCst);
             let has_body = !d.init_es;
             let head = Tr::L(vec![
                 Tr::n(1u8),
@@ -1249,7 +1309,7 @@ fn case_response(p: &mut Pend, out: &mut Out, kind: &str, rc: &RespCase) {
                     why = judge_frames(true, &d.obs, d.ended, &want);
                 }
                 if why.is_none() {
-                    why = judge_end_stream(true, &d);
+                    why = judge_end_stream(true, &d).or_else(|| judge_source(&d));
                 }
                 let announced = parts.headers.get("grpc-encoding").and_then(|v| v.to_str().ok()).and_then(Enc::from_name);
                 // (a handler may put its own grpc-encoding into the response metadata: that name is not
@@ -2031,7 +2091,7 @@ fn main() {
     p.flush(&mut out, &dir);
     out.finish(
         IMPORTS,
-        "body: EncodeBody::new_server/new_client over a scripted source (0-24 items: messages of boundary sizes around the yield threshold and the limit, codec failures, Err items; Ready/Pending patterns; identity/gzip/deflate/zstd; per-response override; BufferSettings incl. 0), polled to None and 5 more times, non-trivial = >= 2 messages or a failure after >= 1 message; request: client::Grpc over a capturing service for the four call shapes x origins x paths x metadata incl. reserved names, non-trivial = non-default origin, metadata or compression; response: server::Grpc::{unary,client_streaming,server_streaming,streaming} with Ok/Err handlers x negotiated encodings x request grpc-encoding (supported, unsupported => early UNIMPLEMENTED) x missing request message x the per-response override (also on stream responses, where it must be ignored); channel: a real transport::Channel (AddOrigin, UserAgent, hyper h2 client) over an in-memory pipe against a bare h2 peer that records the head and body that arrive. is_end_stream() is read before the first and after every poll of every body. Every body is judged by oracle/grpc_wire.py. Distinct = distinct (kind, model expression).",
+        "body: EncodeBody::new_server/new_client over a scripted source (0-24 items: messages of boundary sizes around the yield threshold and the limit, codec failures, Err items; Ready/Pending patterns; identity/gzip/deflate/zstd; per-response override; BufferSettings incl. 0), polled to None and 5 more times, non-trivial = >= 2 messages or a failure after >= 1 message; request: client::Grpc over a capturing service for the four call shapes x origins x paths x metadata incl. reserved names, non-trivial = non-default origin, metadata or compression; response: server::Grpc::{unary,client_streaming,server_streaming,streaming} with Ok/Err handlers x negotiated encodings x request grpc-encoding (supported, unsupported => early UNIMPLEMENTED) x missing request message x the per-response override (also on stream responses, where it must be ignored); channel: a real transport::Channel (AddOrigin, UserAgent, hyper h2 client) over an in-memory pipe against a bare h2 peer that records the head and body that arrive. is_end_stream() is read before the first and after every poll of every body. All scripted sources are strict: a poll after they returned None is counted (compared with the model's ghost, oracle: 0) and answered with a poison item or a panic, alternating per case. Every body is judged by oracle/grpc_wire.py. Distinct = distinct (kind, model expression).",
         json!({"extra_polls": EXTRA_POLLS}),
     );
 }
